@@ -622,6 +622,13 @@ func TestCloseBeforeRun(t *testing.T) {
 		for i := 0; i < n; i++ {
 			subs[i] = lib.NewScriptSub("")
 			subs[i].Buffer = backlog
+			subs[i].Prefill = func(int) []*message.Message {
+				var ms []*message.Message
+				for k := 0; k < backlog; k++ {
+					ms = append(ms, message.NewMessage("backlog", nil))
+				}
+				return ms
+			}
 			router.AddNoPublisherHandler(fmt.Sprintf("h%d", i), "t", subs[i], func(*message.Message) error { started.Add(1); return nil })
 		}
 		closeRet := make(chan error, 1)
